@@ -112,10 +112,23 @@ func vs_jsonOpts(f *ast.Field) tagOptions {
 	return tagOptions(strings.Split(reflect.StructTag(tv).Get("json"), ","))
 }
 
-// vs_jsonName: the JSON key of the field: the tag name, or the Go field name when the tag gives none.
+// vs_jsonIgnored: encoding/json, "Marshal": "As a special case, if the field tag is "-", the field is
+// always omitted. Note that a field with name "-" can still be generated using the tag "-,"."
+func vs_jsonIgnored(f *ast.Field) bool {
+	return vs_jsonOpts(f).Name() == "-" && len(vs_jsonOpts(f)) == 1
+}
+
+// vs_dashComma: the tag is "-," followed by options: the one case of the "-" rule in which
+// encoding/json keeps the field (finding F14: the scanner drops it; pinned by TestSchemaBuilder).
+func vs_dashComma(f *ast.Field) bool {
+	return vs_jsonOpts(f).Name() == "-" && len(vs_jsonOpts(f)) > 1
+}
+
+// vs_jsonName: the JSON key of the field: the tag name, or the Go field name when the tag gives none
+// (or when the field is ignored).
 func vs_jsonName(f *ast.Field) string {
 	n := vs_jsonOpts(f).Name()
-	if n == "" || n == "-" {
+	if n == "" || vs_jsonIgnored(f) {
 		return vs_fieldName(f)
 	}
 	return n
